@@ -2,6 +2,7 @@ SPECIFICATION Spec
 CONSTANT Bug = "skip_ready"
 CONSTANT MaxDefects = 2
 CONSTANT MaxValidations = 1
+CONSTANT AllowForever = FALSE
 CONSTANT MaxPending = 1
 INVARIANT CallOnlyWhenReady
 CHECK_DEADLOCK FALSE
